@@ -43,6 +43,10 @@
 #include <ranges>
 #include <span>
 #include <string>
+#include <atomic>
+#include <chrono>
+#include <memory>
+#include <thread>
 #include <vector>
 
 #include "qsbr.hpp"
@@ -552,6 +556,18 @@ int main(int argc, char** argv) {
   const bool is_enum = mode == "enum";
   const bool last_only = a.num("last-only", 0) != 0;
   const double rate = a.dbl("probe-rate", 0.25);
+  // --companion 1: a second QSBR-registered thread that never passes a quiescent state, and one quiescent state of this
+  // thread up front: the global epoch cannot advance, so every probed quiescent state is this thread's 2nd, 3rd, ... in
+  // the same epoch (a liveness check that only runs on the first one per epoch would go unnoticed otherwise). The
+  // forked probe children contain only the probing thread; QSBR's state word still counts both.
+  std::atomic<int> comp_phase{0};
+  std::unique_ptr<unodb::qsbr_thread> comp;
+  if (a.num("companion", 0) != 0) {
+    comp = std::make_unique<unodb::qsbr_thread>([&comp_phase] { comp_phase.store(1); while (comp_phase.load() != 2) std::this_thread::sleep_for(std::chrono::milliseconds(1)); });
+    while (comp_phase.load() != 1) std::this_thread::yield();
+    unodb::this_thread().quiescent();
+    rep().note("companion_thread", true);
+  }
   const vh::case_range cr(a);
   std::vector<op> seq;
   for (u64 c = cr.begin; c < cr.end; ++c) {
@@ -568,6 +584,7 @@ int main(int argc, char** argv) {
     run.run();
     if (rep().violations_for("C17") >= 12) break;  // registration state may be corrupt from here on
   }
+  if (comp) { comp_phase.store(2); comp->join(); rep().count("sequences_with_companion_thread", g_cnt[C_SEQ]); }
   rep().note("alphabet", static_cast<u64>(alpha.size()));
   if (is_enum) rep().note("enum_total", total);
   finish_report();
